@@ -54,10 +54,11 @@ VARIABLES
     closing,    \* a drop of sender or receiver has begun
     senderGone, recvGone, exited,
     kind,       \* function item -> which send operation it was given to
-    budget      \* attempts after which a batch is given up, once observed (0 = not yet known)
+    budget,     \* attempts after which a batch is given up, once observed (0 = not yet known)
+    prevMax     \* the largest number of attempts any finished batch has had
 
 vars == <<l, cap, queue, acc, done, trunc, ntrunc, batch, cur, phase, lastRem, attempts,
-          lastWait, reg, fired, closing, senderGone, recvGone, exited, kind, budget>>
+          lastWait, reg, fired, closing, senderGone, recvGone, exited, kind, budget, prevMax>>
 
 SeqSet(q) == {q[i] : i \in 1..Len(q)}
 E == Rec[l]
@@ -67,7 +68,7 @@ Fresh ==
     /\ queue = <<>> /\ acc = <<>> /\ done = {} /\ trunc = {} /\ ntrunc = 0
     /\ batch = <<>> /\ cur = <<>> /\ phase = "idle" /\ lastRem = <<>> /\ attempts = 0
     /\ lastWait = 0 /\ reg = <<>> /\ fired = {} /\ closing = FALSE
-    /\ senderGone = FALSE /\ recvGone = FALSE /\ exited = FALSE /\ kind = <<>> /\ budget = 0
+    /\ senderGone = FALSE /\ recvGone = FALSE /\ exited = FALSE /\ kind = <<>> /\ budget = 0 /\ prevMax = 0
 
 Init == l = 1 /\ cap = 1 /\ Fresh
 
@@ -77,14 +78,14 @@ Reset ==
     /\ queue' = <<>> /\ acc' = <<>> /\ done' = {} /\ trunc' = {} /\ ntrunc' = 0
     /\ batch' = <<>> /\ cur' = <<>> /\ phase' = "idle" /\ lastRem' = <<>> /\ attempts' = 0
     /\ lastWait' = 0 /\ reg' = <<>> /\ fired' = {} /\ closing' = FALSE
-    /\ senderGone' = FALSE /\ recvGone' = FALSE /\ exited' = FALSE /\ kind' = <<>> /\ budget' = 0
+    /\ senderGone' = FALSE /\ recvGone' = FALSE /\ exited' = FALSE /\ kind' = <<>> /\ budget' = 0 /\ prevMax' = 0
 
 SendCall ==
     /\ IsEv("SendCall")
     /\ E.item \notin DOMAIN kind
     /\ kind' = (E.item :> E.kind) @@ kind
     /\ UNCHANGED <<cap, queue, acc, done, trunc, ntrunc, batch, cur, phase, lastRem, attempts,
-                   lastWait, reg, fired, closing, senderGone, recvGone, exited, budget>>
+                   lastWait, reg, fired, closing, senderGone, recvGone, exited, budget, prevMax>>
 
 Open == ~senderGone /\ ~recvGone
 
@@ -109,7 +110,7 @@ Send ==
           /\ E.qlen = Len(queue')
           /\ Len(queue') <= cap
     /\ UNCHANGED <<cap, done, batch, cur, phase, lastRem, attempts, lastWait, reg, fired,
-                   closing, senderGone, recvGone, exited, kind, budget>>
+                   closing, senderGone, recvGone, exited, kind, budget, prevMax>>
 
 (* C09: the fallible send enqueues iff there is room, never discards anything *)
 TrySend ==
@@ -119,12 +120,12 @@ TrySend ==
     /\ \/ /\ E.code = 0 /\ Len(queue) < cap /\ (Open \/ closing)
           /\ queue' = Append(queue, E.item) /\ acc' = Append(acc, E.item)
        \/ /\ E.code = 1 /\ Len(queue) >= cap /\ (Open \/ closing)
-          /\ UNCHANGED <<queue, acc, kind, budget>>
+          /\ UNCHANGED <<queue, acc, kind, budget, prevMax>>
        \/ /\ E.code = 2 /\ (~Open \/ closing)
-          /\ UNCHANGED <<queue, acc, kind, budget>>
+          /\ UNCHANGED <<queue, acc, kind, budget, prevMax>>
     /\ E.qlen = Len(queue')
     /\ UNCHANGED <<cap, done, trunc, ntrunc, batch, cur, phase, lastRem, attempts, lastWait,
-                   reg, fired, closing, senderGone, recvGone, exited, kind, budget>>
+                   reg, fired, closing, senderGone, recvGone, exited, kind, budget, prevMax>>
 
 (* C09: fallible / blocking sends either enqueued the item or handed it back *)
 SendRet ==
@@ -134,14 +135,14 @@ SendRet ==
     /\ E.res \in {"ok", "err-full-returned", "err-closed", "sent"}
     /\ E.res = "err-closed" => (~Open \/ closing)
     /\ UNCHANGED <<cap, queue, acc, done, trunc, ntrunc, batch, cur, phase, lastRem, attempts,
-                   lastWait, reg, fired, closing, senderGone, recvGone, exited, kind, budget>>
+                   lastWait, reg, fired, closing, senderGone, recvGone, exited, kind, budget, prevMax>>
 
 FlushReq ==
     /\ IsEv("FlushReq")
     /\ E.w \notin DOMAIN reg
     /\ reg' = (E.w :> [items |-> SeqSet(acc), obs |-> E.obs]) @@ reg
     /\ UNCHANGED <<cap, queue, acc, done, trunc, ntrunc, batch, cur, phase, lastRem, attempts,
-                   lastWait, fired, closing, senderGone, recvGone, exited, kind, budget>>
+                   lastWait, fired, closing, senderGone, recvGone, exited, kind, budget, prevMax>>
 
 (* C07: a flush reports completion only when everything accepted before the request has
    finished its final attempt or was truncated (while the receiver is alive) *)
@@ -155,14 +156,14 @@ Fired ==
     /\ Flushed(E.w)
     /\ fired' = fired \cup {E.w}
     /\ UNCHANGED <<cap, queue, acc, done, trunc, ntrunc, batch, cur, phase, lastRem, attempts,
-                   lastWait, reg, closing, senderGone, recvGone, exited, kind, budget>>
+                   lastWait, reg, closing, senderGone, recvGone, exited, kind, budget, prevMax>>
 
 FlushRet ==
     /\ IsEv("FlushRet")
     /\ E.w \in DOMAIN reg
     /\ E.ret => Flushed(E.w)
     /\ UNCHANGED <<cap, queue, acc, done, trunc, ntrunc, batch, cur, phase, lastRem, attempts,
-                   lastWait, reg, fired, closing, senderGone, recvGone, exited, kind, budget>>
+                   lastWait, reg, fired, closing, senderGone, recvGone, exited, kind, budget, prevMax>>
 
 (* C06: the receiver takes exactly the pending queue, and only when the previous batch is
    finished: batches partition the accepted sequence in order *)
@@ -173,14 +174,14 @@ Take ==
     /\ batch' = queue /\ queue' = <<>>
     /\ phase' = "taken" /\ attempts' = 0 /\ lastWait' = 0
     /\ UNCHANGED <<cap, acc, done, trunc, ntrunc, cur, lastRem, reg, fired, closing,
-                   senderGone, recvGone, exited, kind, budget>>
+                   senderGone, recvGone, exited, kind, budget, prevMax>>
 
 TakeEmpty ==
     /\ IsEv("TakeEmpty")
     /\ phase = "idle" /\ ~exited
     /\ queue = <<>>
     /\ UNCHANGED <<cap, queue, acc, done, trunc, ntrunc, batch, cur, phase, lastRem, attempts,
-                   lastWait, reg, fired, closing, senderGone, recvGone, exited, kind, budget>>
+                   lastWait, reg, fired, closing, senderGone, recvGone, exited, kind, budget, prevMax>>
 
 (* C06: the first attempt gets exactly the batch taken; a retry gets exactly the remainder
    the processor returned.  C08: bounded attempts. *)
@@ -193,13 +194,15 @@ Call ==
     /\ attempts' <= MaxAttempts
     /\ phase' = "inflight"
     /\ UNCHANGED <<cap, queue, acc, done, trunc, ntrunc, batch, lastRem, lastWait, reg, fired,
-                   closing, senderGone, recvGone, exited, kind, budget>>
+                   closing, senderGone, recvGone, exited, kind, budget, prevMax>>
 
 \* The processor's result.  After a retryable failure with a non-empty remainder the receiver
 \* either retries or gives up; the size of its budget is not part of the statement, but the
-\* budget is per batch: once some batch was given up after n attempts, every batch is retried
-\* until it has had n attempts and none gets more (C06: the remainder is re-delivered; C08:
-\* each batch is attempted a bounded number of times and then given up).
+\* budget is per batch: a batch is not given up after fewer attempts than an earlier batch was
+\* granted, and once some batch was given up after n attempts no batch gets more than n (C06:
+\* the remainder is re-delivered; C08: each batch is attempted a bounded number of times and
+\* then given up).
+Max(a, b) == IF a > b THEN a ELSE b
 Ret ==
     /\ IsEv("Ret")
     /\ phase = "inflight"
@@ -208,15 +211,19 @@ Ret ==
           /\ budget = 0 \/ attempts < budget
           /\ phase' = "retry" /\ lastRem' = E.rem
           /\ done' = done \cup (SeqSet(cur) \ SeqSet(E.rem))
-          /\ budget' = budget
+          /\ UNCHANGED <<budget, prevMax>>
        \/ /\ E.outcome = "retry" /\ E.rem # <<>>             \* given up
-          /\ recvGone \/ closing \/ budget = 0 \/ attempts = budget
+          /\ \/ recvGone \/ closing
+             \/ /\ attempts >= prevMax
+                /\ budget = 0 \/ attempts = budget
           /\ budget' = IF budget = 0 /\ ~recvGone /\ ~closing THEN attempts ELSE budget
+          /\ prevMax' = Max(prevMax, attempts)
           /\ phase' = "idle" /\ lastRem' = <<>>
           /\ done' = done \cup SeqSet(cur)
        \/ /\ ~(E.outcome = "retry" /\ E.rem # <<>>)          \* final result
           /\ phase' = "idle" /\ lastRem' = <<>>
           /\ done' = done \cup SeqSet(cur)
+          /\ prevMax' = Max(prevMax, attempts)
           /\ budget' = budget
     /\ UNCHANGED <<cap, queue, acc, trunc, ntrunc, batch, cur, attempts, lastWait, reg, fired,
                    closing, senderGone, recvGone, exited, kind>>
@@ -229,13 +236,13 @@ Wait ==
        THEN /\ E.ms >= lastWait /\ lastWait' = E.ms
        ELSE /\ phase = "idle" /\ lastWait' = lastWait
     /\ UNCHANGED <<cap, queue, acc, done, trunc, ntrunc, batch, cur, phase, lastRem, attempts,
-                   reg, fired, closing, senderGone, recvGone, exited, kind, budget>>
+                   reg, fired, closing, senderGone, recvGone, exited, kind, budget, prevMax>>
 
 Closing ==
     /\ IsEv("Closing")
     /\ closing' = TRUE
     /\ UNCHANGED <<cap, queue, acc, done, trunc, ntrunc, batch, cur, phase, lastRem, attempts,
-                   lastWait, reg, fired, senderGone, recvGone, exited, kind, budget>>
+                   lastWait, reg, fired, senderGone, recvGone, exited, kind, budget, prevMax>>
 
 Closed ==
     /\ IsEv("Closed")
@@ -243,7 +250,7 @@ Closed ==
     /\ IF E.by = "sender" THEN senderGone' = TRUE /\ recvGone' = recvGone
                           ELSE recvGone' = TRUE /\ senderGone' = senderGone
     /\ UNCHANGED <<cap, queue, acc, done, trunc, ntrunc, batch, cur, phase, lastRem, attempts,
-                   lastWait, reg, fired, exited, kind, budget>>
+                   lastWait, reg, fired, exited, kind, budget, prevMax>>
 
 (* C08: exec returns only after the sender is gone, with nothing queued or in flight *)
 Exit ==
@@ -251,7 +258,7 @@ Exit ==
     /\ senderGone /\ queue = <<>> /\ phase = "idle"
     /\ exited' = TRUE
     /\ UNCHANGED <<cap, queue, acc, done, trunc, ntrunc, batch, cur, phase, lastRem, attempts,
-                   lastWait, reg, fired, closing, senderGone, recvGone, kind, budget>>
+                   lastWait, reg, fired, closing, senderGone, recvGone, kind, budget, prevMax>>
 
 (* end of a trace; a terminal trace (sender dropped, receiver ran to completion) must have
    processed everything and fired every callback exactly once *)
@@ -262,7 +269,7 @@ End ==
           /\ \A i \in SeqSet(acc) : i \in done \cup trunc
           /\ \A w \in DOMAIN reg : reg[w].obs => w \in fired
     /\ UNCHANGED <<cap, queue, acc, done, trunc, ntrunc, batch, cur, phase, lastRem, attempts,
-                   lastWait, reg, fired, closing, senderGone, recvGone, exited, kind, budget>>
+                   lastWait, reg, fired, closing, senderGone, recvGone, exited, kind, budget, prevMax>>
 
 Next ==
     \/ Reset \/ SendCall \/ Send \/ TrySend \/ SendRet \/ FlushReq \/ Fired \/ FlushRet \/ Take \/ TakeEmpty
